@@ -1,7 +1,7 @@
 (* C03 - basis functions and knot-span search satisfy their defining identities.
    This file only states the property theorems; proofs live under Proofs/ and Transfer/. *)
 From Coq Require Import List QArith Reals Qreals Lia Arith Bool.
-From NV Require Import Scalar.Ops Model.Common Model.Basis Model.Knots Proofs.Boehm Proofs.BasisR Proofs.KnotsR Proofs.EvalR Proofs.BinSearchR Proofs.DersSum5 Proofs.DersSum6 Transfer.BasisT.
+From NV Require Import Scalar.Ops Model.Common Model.Basis Model.Knots Proofs.Boehm Proofs.BasisR Proofs.KnotsR Proofs.EvalR Proofs.BinSearchR Proofs.DersSum5 Proofs.DersSum6 Proofs.GenerateR Transfer.BasisT.
 Import ListNotations.
 
 (* [G] all degrees, all sorted knot vectors with any multiplicities, all parameters in a non-empty span *)
@@ -96,6 +96,19 @@ Proof.
   intros Hp HL; pose proof (ders_sums_p6 U span u Hs Hu Hp HL) as H; cbn zeta in *; tauto.
 Qed.
 Print Assumptions C03_ders_rows_sum_to_zero_deg_le_6.
+
+(* [G] all (degree, count) pairs with degree >= 1 and count >= degree + 1: the generated clamped knot vector has the documented
+   length, is non-decreasing, has end multiplicities degree+1 and passes the validity check *)
+Theorem C03_generate_clamped_valid : forall tol8 p n, (0 <= tol8 < 1)%R -> (1 <= p)%nat -> (p + 1 <= n)%nat ->
+  exists U, generate Rops tol8 p n true = Ok U /\ length U = (n + p + 1)%nat /\ nthsorted U /\
+    (forall i, (i <= p)%nat -> nth i U 0%R = 0%R) /\ (forall i, (n <= i < n + p + 1)%nat -> nth i U 0%R = 1%R) /\
+    check Rops p U n = Ok true.
+Proof. exact generate_clamped_valid. Qed.
+Print Assumptions C03_generate_clamped_valid.
+
+Theorem C03_generate_rejects_zero : forall tol8 p n c, (p = 0 \/ n = 0)%nat -> generate Rops tol8 p n c = Rejected.
+Proof. intros tol8 p n c [-> | ->]; unfold generate; [reflexivity|]. rewrite Nat.eqb_refl, orb_true_r. reflexivity. Qed.
+Print Assumptions C03_generate_rejects_zero.
 
 (* non-vacuity: a concrete cubic knot vector with a double interior knot meets the hypotheses *)
 Example C03_hypotheses_satisfiable :
